@@ -24,6 +24,7 @@ CONTRACTS = {
         'ensures': {
             'counted': 'd.warning[warning].number == old(d.warning[warning].number) + 1',
             'info': 'd.warning[warning].lastinfo == info',
+            'others_unchanged': 'And(*[implies(w != warning, d.warning[w].number == old(d.warning[w].number) and d.warning[w].lastinfo == old(d.warning[w].lastinfo)) for w in range(mjNWARNING)])',
         },
         'error_only_if': 'warning < 0 or warning >= mjNWARNING',
     },
